@@ -30,18 +30,33 @@ const queryID = 60000
 
 type refMatcher struct {
 	neg     bool
-	builtin int // 0 harness plugin, 1 _true, 2 _false
+	builtin int // 0 harness plugin, 1 _true, 2 _false, 3 mark (real plugin: true if any of args is set)
 	kind    string
 	label   string
+	n       int   // harness state matchers K V Q R
+	args    []int // mark
 }
 
 type refAction struct {
-	op     string // plain | wrap | accept | reject | return | jump | goto
+	op     string // plain | wrap | accept | reject | return | jump | goto | mark (real plugin: sets all of args)
 	kind   string
 	id     int
 	label  string
 	rcode  int
 	target int
+	args   []int
+}
+
+func parseMarks(args string) ([]int, error) {
+	var out []int
+	for _, f := range strings.Fields(args) {
+		n, err := strconv.ParseUint(f, 10, 32)
+		if err != nil {
+			return nil, err
+		}
+		out = append(out, int(n))
+	}
+	return out, nil
 }
 
 type refRule struct {
@@ -102,12 +117,12 @@ func refParseMatcher(p *Program, text string) (refMatcher, error) {
 		}
 		switch spec.Class {
 		case "m":
-			k, _, err := parseKind(spec.Kind)
-			m.kind, m.label = k, spec.Label
+			k, n, err := parseKind(spec.Kind)
+			m.kind, m.n, m.label = k, n, spec.Label
 			return m, err
 		case "mq":
-			k, _, l, err := parseKindLabel(args)
-			m.kind, m.label = k, l
+			k, n, l, err := parseKindLabel(args)
+			m.kind, m.n, m.label = k, n, l
 			return m, err
 		}
 		return m, fmt.Errorf("tag %q is not a matcher", head)
@@ -116,8 +131,13 @@ func refParseMatcher(p *Program, text string) (refMatcher, error) {
 	case head == "_false":
 		m.builtin = 2
 	case head == "hm":
-		k, _, l, err := parseKindLabel(args)
-		m.kind, m.label = k, l
+		k, n, l, err := parseKindLabel(args)
+		m.kind, m.n, m.label = k, n, l
+		return m, err
+	case head == "mark":
+		m.builtin = 3
+		var err error
+		m.args, err = parseMarks(args)
 		return m, err
 	default:
 		return m, fmt.Errorf("unknown matcher type %q", head)
@@ -171,6 +191,11 @@ func refParseExec(p *Program, names map[string]int, text string) (refAction, err
 		a.op = "accept"
 	case head == "return":
 		a.op = "return"
+	case head == "mark":
+		a.op = "mark"
+		var err error
+		a.args, err = parseMarks(args)
+		return a, err
 	case head == "reject":
 		a.op = "reject"
 		a.rcode = 5 // REFUSED
@@ -216,8 +241,13 @@ func refCompile(p *Program) (*refProg, error) {
 					cb.WriteString("_t ")
 				case 2:
 					cb.WriteString("_f ")
+				case 3:
+					cb.WriteString("mark" + fmt.Sprint(m.args) + " ")
 				default:
 					cb.WriteString(m.kind + " ")
+					if isStateMatcher(m.kind) {
+						cb.WriteString(strconv.Itoa(m.n) + " ")
+					}
 				}
 			}
 			a, err := refParseExec(p, rp.names, rt.Exec)
@@ -232,6 +262,12 @@ func refCompile(p *Program) (*refProg, error) {
 				refs = append(refs, a.target)
 			case "reject":
 				cb.WriteString(strconv.Itoa(a.rcode))
+			case "mark":
+				cb.WriteString(fmt.Sprint(a.args))
+			case "plain":
+				if isStateAction(a.kind) {
+					cb.WriteString(strconv.Itoa(a.id))
+				}
 			}
 			cb.WriteString("; ")
 			rules = append(rules, r)
@@ -312,21 +348,145 @@ type feats struct {
 	wrapPending                                                       map[string]int // wrapper ran with >=1 pending jump return in its continuation
 	acceptUnderPostNested, rerunAfterPendingReturn, hEval, concBranch int
 	maxDepth                                                          int
-	skipped, matched                                                  int
+	skipped, matched, copyRuns                                        int
 	deferredReg                                                       map[string]int // kept continuations registered, by wrapper kind
 	deferredPending                                                   int            // ... whose continuation contains a pending jump return
+	// per-query state (dimension = mark-real, mark, value, query-id, rcode, response)
+	stateReads, stateWrites map[string]int
+	// reads of a state key for which ANOTHER context of the same execution (related by
+	// Copy) was written to a different value: the read only gives the right answer if
+	// the contexts do not share that state
+	isoReads map[string]int
+	// ... by the wrapper kind that made the copy the reading or the writing context descends from
+	isoReadsByWrap map[string]int
 }
 
 type refOverflow struct{}
 
 type refState struct {
 	resp      string
+	marks     map[int]bool
+	kv        map[int]string
+	qid       int
+	fam       *family
+	via       string // wrapper kind that created this context ("" = the original query)
 	trace     []string
 	steps     *int
 	limit     int
 	ft        *feats
 	postDepth int    // dynamic nesting inside wrappers that act after their continuation
 	deferred  []dres // continuations kept by late-running wrappers, in registration order
+}
+
+// family: all query contexts of one top-level execution with the state reads and writes they performed
+type family struct {
+	reads  []stateEv
+	writes map[string][]stateEv
+}
+
+type stateEv struct {
+	st       *refState
+	dim, key string
+	val      string
+}
+
+// child returns what Copy() of the query context must be: the same state now, independent afterwards.
+func (st *refState) child(via string) *refState {
+	c := &refState{resp: st.resp, qid: st.qid, fam: st.fam, via: via, steps: st.steps, limit: st.limit, ft: st.ft, postDepth: st.postDepth}
+	if st.marks != nil {
+		c.marks = make(map[int]bool, len(st.marks))
+		for k, v := range st.marks {
+			c.marks[k] = v
+		}
+	}
+	if st.kv != nil {
+		c.kv = make(map[int]string, len(st.kv))
+		for k, v := range st.kv {
+			c.kv[k] = v
+		}
+	}
+	return c
+}
+
+func (st *refState) noteRead(dim, key, val string) {
+	st.ft.stateReads[dim]++
+	if st.fam != nil {
+		st.fam.reads = append(st.fam.reads, stateEv{st, dim, key, val})
+	}
+}
+
+func (st *refState) noteWrite(dim, key, val string) {
+	st.ft.stateWrites[dim]++
+	if st.fam != nil {
+		st.fam.writes[key] = append(st.fam.writes[key], stateEv{st, dim, key, val})
+	}
+}
+
+func bit(b bool) string {
+	if b {
+		return "1"
+	}
+	return "0"
+}
+
+func respRcode(resp string) string {
+	f := strings.Split(resp, "/")
+	if len(f) != 3 {
+		return "-"
+	}
+	return f[1]
+}
+
+// setResp: every change of the response (presence and rcode are both readable by matchers)
+func (st *refState) setResp(v string) {
+	st.resp = v
+	st.noteWrite("response", "resp", bit(v != "-"))
+	st.noteWrite("rcode", "rc", respRcode(v))
+}
+
+func (st *refState) setMark(dim string, n int, on bool) {
+	if on {
+		if st.marks == nil {
+			st.marks = map[int]bool{}
+		}
+		st.marks[n] = true
+	} else {
+		delete(st.marks, n)
+	}
+	st.noteWrite(dim, "m"+strconv.Itoa(n), bit(on))
+}
+
+// tally counts, after the execution, the reads whose answer depends on contexts not sharing state.
+func (fam *family) tally(ft *feats) {
+	for _, r := range fam.reads {
+		for _, w := range fam.writes[r.key] {
+			if w.st != r.st && w.val != r.val {
+				ft.isoReads[r.dim]++
+				via := r.st.via
+				if via == "" {
+					via = w.st.via
+				}
+				ft.isoReadsByWrap[via]++
+				break
+			}
+		}
+	}
+}
+
+func isStateMatcher(k string) bool {
+	switch k {
+	case "K", "V", "Q", "R":
+		return true
+	}
+	return false
+}
+
+func isStateAction(k string) bool {
+	switch k {
+	case "mk", "um", "sv", "dv", "qi", "rm":
+		return true
+	}
+	return false
 }
 
 func (st *refState) emit(s string) {
@@ -376,6 +536,15 @@ func (rp *refProg) run(k *kframe, st *refState) string {
 				v = true
 			case 2:
 				v = false
+			case 3: // real mark matcher: silent
+				for _, n := range m.args {
+					has := st.marks[n]
+					st.noteRead("mark-real", "m"+strconv.Itoa(n), bit(has))
+					if has {
+						v = true
+						break
+					}
+				}
 			default:
 				switch m.kind {
 				case "T":
@@ -390,9 +559,31 @@ func (rp *refProg) run(k *kframe, st *refState) string {
 						st.ft.errMatcherAt[i]++
 					}
 					return "E:" + m.label
+				case "K":
+					v = st.marks[m.n]
+					st.noteRead("mark", "m"+strconv.Itoa(m.n), bit(v))
+					st.emit("M " + m.label + "=" + bit(v))
+				case "V":
+					var x string
+					x, v = st.kv[m.n]
+					if !v {
+						x = "-"
+					}
+					st.noteRead("value", "v"+strconv.Itoa(m.n), x)
+					st.emit("M " + m.label + "=" + x)
+				case "Q":
+					v = st.qid == m.n
+					st.noteRead("query-id", "q", strconv.Itoa(st.qid))
+					st.emit("M " + m.label + "=" + strconv.Itoa(st.qid))
+				case "R":
+					rc := respRcode(st.resp)
+					v = rc == strconv.Itoa(m.n)
+					st.noteRead("rcode", "rc", rc)
+					st.emit("M " + m.label + "=" + rc)
 				case "H":
 					v = st.resp != "-"
 					st.ft.hEval++
+					st.noteRead("response", "resp", bit(v))
 					if v {
 						st.emit("M " + m.label + "=1")
 					} else {
@@ -428,11 +619,36 @@ func (rp *refProg) run(k *kframe, st *refState) string {
 				st.ft.errAction++
 				return "E:" + a.label
 			case "set":
-				st.resp = respMarker(a.id, 0, 0)
+				st.setResp(respMarker(a.id, 0, 0))
 			case "drop":
-				st.resp = "-"
+				st.setResp("-")
+			case "mk":
+				st.setMark("mark", a.id, true)
+			case "um":
+				st.setMark("mark", a.id, false)
+			case "sv":
+				if st.kv == nil {
+					st.kv = map[int]string{}
+				}
+				st.kv[a.id] = a.label
+				st.noteWrite("value", "v"+strconv.Itoa(a.id), a.label)
+			case "dv":
+				delete(st.kv, a.id)
+				st.noteWrite("value", "v"+strconv.Itoa(a.id), "-")
+			case "qi":
+				st.qid = a.id
+				st.noteWrite("query-id", "q", strconv.Itoa(a.id))
+			case "rm":
+				if f := strings.Split(st.resp, "/"); len(f) == 3 {
+					st.setResp(f[0] + "/" + strconv.Itoa(a.id) + "/" + f[2])
+				}
 			default:
 				panic("reference: unknown action kind " + a.kind)
+			}
+			k = rest
+		case "mark": // real mark executable: silent
+			for _, n := range a.args {
+				st.setMark("mark-real", n, true)
 			}
 			k = rest
 		case "accept":
@@ -443,7 +659,7 @@ func (rp *refProg) run(k *kframe, st *refState) string {
 			return ""
 		case "reject":
 			st.ft.reject++
-			st.resp = respMarker(queryID, a.rcode, 1)
+			st.setResp(respMarker(st.qid, a.rcode, 1)) // the reply carries the id of the query message as it is now
 			return ""
 		case "return":
 			if k.up != nil {
@@ -487,7 +703,7 @@ func (rp *refProg) wrap(a *refAction, rest *kframe, st *refState) string {
 		return ""
 	case "zero":
 		st.emit(pre)
-		st.resp = respMarker(a.id, 0, 0)
+		st.setResp(respMarker(a.id, 0, 0))
 		return ""
 	case "post", "postset", "swallow":
 		st.emit(pre)
@@ -498,7 +714,7 @@ func (rp *refProg) wrap(a *refAction, rest *kframe, st *refState) string {
 		switch a.kind {
 		case "postset":
 			if e == "" {
-				st.resp = respMarker(a.id, 0, 0)
+				st.setResp(respMarker(a.id, 0, 0))
 			}
 		case "swallow":
 			return ""
@@ -510,7 +726,7 @@ func (rp *refProg) wrap(a *refAction, rest *kframe, st *refState) string {
 		e1 := rp.run(rest, st)
 		obs("mid", e1)
 		if a.kind == "twicedrop" {
-			st.resp = "-"
+			st.setResp("-")
 		}
 		if rest.up != nil {
 			st.ft.rerunAfterPendingReturn++
@@ -526,7 +742,7 @@ func (rp *refProg) wrap(a *refAction, rest *kframe, st *refState) string {
 		// the wrapper copies the query, keeps (copy, continuation) for later and
 		// either stops (like a cache answering from a stale entry) or continues.
 		st.emit(pre)
-		ds := &refState{resp: st.resp, steps: st.steps, limit: st.limit, ft: st.ft, postDepth: st.postDepth}
+		ds := st.child(a.kind)
 		e := rp.run(rest, ds)
 		st.ft.deferredReg[a.kind]++
 		if rest.up != nil {
@@ -544,7 +760,8 @@ func (rp *refProg) wrap(a *refAction, rest *kframe, st *refState) string {
 		sb.WriteString("W " + a.label + " join ")
 		first, b0resp := "", ""
 		for b := 0; b < 2; b++ {
-			bs := &refState{resp: st.resp, steps: st.steps, limit: st.limit, ft: st.ft, postDepth: st.postDepth + 1}
+			bs := st.child(a.kind)
+			bs.postDepth++
 			e := rp.run(rest, bs)
 			st.ft.concBranch++
 			if b > 0 {
@@ -560,8 +777,29 @@ func (rp *refProg) wrap(a *refAction, rest *kframe, st *refState) string {
 			st.deferred = append(st.deferred, bs.deferred...)
 		}
 		st.emit(sb.String())
-		st.resp = b0resp // the harness wrapper adopts branch 0's response
+		st.setResp(b0resp) // the harness wrapper adopts branch 0's response
 		return first
+	case "cpa", "cpb", "cpc":
+		// the continuation runs on the original and on a Copy taken before either run;
+		// whatever the order (or concurrently) both execute the same remaining rules on
+		// the state as it was at the copy
+		st.emit(pre)
+		cs := st.child(a.kind)
+		st.postDepth++
+		cs.postDepth++
+		eo := rp.run(rest, st)
+		ec := rp.run(rest, cs)
+		st.postDepth--
+		st.ft.copyRuns++
+		if rest.up != nil {
+			st.ft.rerunAfterPendingReturn++
+		}
+		st.deferred = append(st.deferred, cs.deferred...)
+		st.emit("W " + a.label + " copy [" + strings.Join(cs.trace, ";") + "]e=" + errStr(ec) + ",r=" + cs.resp + " orig e=" + errStr(eo) + " r=" + st.resp)
+		if eo != "" {
+			return eo
+		}
+		return ec
 	}
 	panic("reference: unknown wrapper kind " + a.kind)
 }
@@ -602,7 +840,8 @@ func lateRuns(k string) int {
 // exec runs entry sequence at top level. ok=false: the trace exceeds the step
 // limit (program discarded, never handed to mosdns).
 func (rp *refProg) exec(entry int, preset bool, limit int, ft *feats) (res result, steps int, ok bool) {
-	st := &refState{resp: "-", steps: &steps, limit: limit, ft: ft}
+	fam := &family{writes: map[string][]stateEv{}}
+	st := &refState{resp: "-", qid: queryID, fam: fam, steps: &steps, limit: limit, ft: ft}
 	if preset {
 		st.resp = respMarker(1, 0, 0)
 	}
@@ -616,9 +855,11 @@ func (rp *refProg) exec(entry int, preset bool, limit int, ft *feats) (res resul
 		}
 	}()
 	e := rp.run(&kframe{seq: entry}, st)
+	fam.tally(ft)
 	return result{Trace: st.trace, Resp: st.resp, Err: errStr(e), Deferred: st.deferred}, steps, true
 }
 
 func newFeats() *feats {
-	return &feats{wrapKinds: map[string]int{}, wrapPending: map[string]int{}, deferredReg: map[string]int{}}
+	return &feats{wrapKinds: map[string]int{}, wrapPending: map[string]int{}, deferredReg: map[string]int{},
+		stateReads: map[string]int{}, stateWrites: map[string]int{}, isoReads: map[string]int{}, isoReadsByWrap: map[string]int{}}
 }
